@@ -13,7 +13,8 @@ def check(ctx):
         "trace_id = parameter, span_id = RawSpan.id, parent_id = parameter exactly on the RawSpan.parent_id == default "
         "edge, and postprocess passes each collection's own pair; R4 SpanQueue start/finish keep next_parent_id (new "
         "span's parent <- next_parent_id, next <- new id; restore <- finished span's stored parent; nothing on the "
-        "capacity edge); R5 the per-item fan-out loop exits only by exhaustion.")
+        "capacity edge); R5 the per-item fan-out loop exits only by exhaustion; R6 every use of issue_collect_token carries all items over "
+        "(collect / flat_map; only SpanContext::from_span may read the first item) and a scope re-issues its token item by item.")
     ctx.not_decided = ("uniqueness / non-zero of generated ids (random prefix + 32-bit counter: value level); that the "
                        "tree is right for every nesting (the rules show each link is built from the right source, not "
                        "that the source holds the right runtime value).")
